@@ -752,6 +752,62 @@ func (sw *sweeper) asArgument(rm recvMaker) {
 	}
 }
 
+// asNested puts a fresh read-only instance inside writable parents (direct element,
+// grandchild, Condition expression) and calls every method of the parent.
+func (sw *sweeper) asNested(rm recvMaker) {
+	if rm.typ != "Stack" {
+		return
+	}
+	parents := []struct {
+		name string
+		mk   func(child any) stackage.Stack
+	}{
+		{"parent-direct", func(c any) stackage.Stack { return stackage.And().Push(c, "x") }},
+		{"parent-grand", func(c any) stackage.Stack { return stackage.Or().Push(stackage.And().Push("y", c), "x") }},
+		{"parent-cond", func(c any) stackage.Stack {
+			return stackage.And().Push(stackage.Cond("k", stackage.Eq, c), stackage.And().Push("s"))
+		}},
+	}
+	for _, pm := range parents {
+		probe := pm.mk(stackage.And())
+		for _, m := range methodsOf(probe) {
+			if m.Name == "Free" {
+				continue
+			}
+			sets := argSets(methodType(m), plainAnys(), 6)
+			for _, as := range sets {
+				ro := setRO(rm.mk())
+				// give recursing mutators something to do inside the read-only child
+				if rs, ok := ro.(stackage.Stack); ok {
+					rs.SetReadOnly(false)
+					rs.Push(nil, "tail", stackage.And().Push(stackage.And().Push("w1", "w2")))
+					rs.SetReadOnly(true)
+					ro = rs
+				}
+				parent := pm.mk(ro)
+				pre := Snap(ro)
+				ev := SweepEvent{Ev: "call", Mode: "ronly-nested", Recv: rm.name, Typ: rm.typ,
+					Method: "nested:" + pm.name + "." + m.Name, Args: as.desc,
+					PreLive: b2s(pre.Live), PreRO: b2s(pre.Ronly), PreErr: pre.Err, Pre: pre.Rest,
+					NonZero: []string{}, ErrRes: "false", Again: "n/a", Health: "n/a"}
+				func() {
+					defer func() {
+						if r := recover(); r != nil {
+							ev.Panic = fmt.Sprint(r)
+						}
+					}()
+					holderOf(parent).Method(m.Index).Call(as.vals)
+				}()
+				post := Snap(ro)
+				ev.PostLive, ev.PostRO, ev.PostErr, ev.Post = b2s(post.Live), b2s(post.Ronly), post.Err, post.Rest
+				_ = sw.enc.Encode(SweepEvent{Ev: "reset", Mode: "ronly-nested", Recv: rm.name, Typ: rm.typ, NonZero: []string{}})
+				_ = sw.enc.Encode(ev)
+				sw.events++
+			}
+		}
+	}
+}
+
 func methodsOf(x any) []reflect.Method {
 	t := reflect.PtrTo(reflect.TypeOf(x)) // pointer method set includes value methods
 	var out []reflect.Method
@@ -825,6 +881,8 @@ func cmdSweep(args []string) {
 			}
 			// the read-only instance as an ARGUMENT of another instance's methods
 			sw.asArgument(rm)
+			// ... and as a nested ELEMENT of a writable parent whose methods recurse
+			sw.asNested(rm)
 		}
 	case "dead":
 		// package-level functions and the Auxiliary type
@@ -953,7 +1011,7 @@ func RunSweepReplay(r *SweepReplay) (bool, string) {
 		return false, "no events"
 	}
 	first := r.Events[0]
-	if first.Mode == "ronly-arg" {
+	if first.Mode == "ronly-arg" || first.Mode == "ronly-nested" {
 		return replayAsArgument(first)
 	}
 	if first.Mode == "pkg" {
@@ -1048,7 +1106,11 @@ func replayAsArgument(want SweepEvent) (bool, string) {
 	all := append(liveStackMakers(), liveCondMakers()...)
 	for i := range all {
 		if all[i].name == want.Recv {
-			sw.asArgument(all[i])
+			if want.Mode == "ronly-nested" {
+				sw.asNested(all[i])
+			} else {
+				sw.asArgument(all[i])
+			}
 		}
 	}
 	f.Seek(0, 0)
